@@ -43,6 +43,9 @@ def run(tier):
     pf = [bb for bb, t, ck, fr in pfc.calls() if ck == "saphyr::loader::parse_f64"]
     okn = len(pi) == 1 and len(pf) == 1 and pf[0] in cfg.blocks_reachable_from(pfc, [pi[0]]) and pi[0] in pfc.dominators().get(pf[0], ())
     rep.check(okn, "json-number-path", "parse_from_cow", "numbers are no longer tried as i64 first and as a core-schema float second", site=pfc.span)
+    # a JSON number of any length is a core-schema number: the float resolver may say "not a number" only where the lexical test failed
+    from . import C08 as _C08
+    _C08.rejects_only_by_guard(rep, F, F.fn("saphyr::loader::parse_f64"), "json-number-rejected-only-by-lexical-test")
     # (c) adjacent value
     for fk, cond in ((S + "fetch_flow_scalar", None), (S + "fetch_flow_collection_end", "flow_level")):
         f = F.fn(fk)
